@@ -36,6 +36,71 @@ let md name spec stream m ch =
 let z64 = Model.zeros (nat_of_int 64)
 let z128 = Model.zeros (nat_of_int 128)
 
+
+let z16 = Model.zeros (nat_of_int 16)
+let two32 = Z.shift_left Z.one 32
+
+(* "c5,k3,c64" over the data string: Crypt of the next n data bytes / Keystream of n bytes *)
+let parse_ops (data : Model.n list) (spec : string) : Model.cc_op list =
+  let rec go data = function
+    | [] -> []
+    | t :: r ->
+      let n = int_of_string (String.sub t 1 (String.length t - 1)) in
+      if t.[0] = 'c' then Model.OpCrypt (take n data) :: go (drop n data) r
+      else Model.OpKeystream (nat_of_int n) :: go data r
+  in if spec = "-" then [] else go data (String.split_on_char ',' spec)
+
+let only_crypt spec = spec <> "-" && List.for_all (fun t -> t.[0] = 'c') (String.split_on_char ',' spec)
+
+let flip_bit (l : Model.n list) (bit : int) : Model.n list =
+  List.mapi (fun i b -> if i = bit / 8 then n_of_int ((int_of_n b) lxor (1 lsl (bit mod 8))) else b) l
+
+let dec_result = function
+  | None -> "fail"
+  | Some (p1, p2) -> "ok " ^ hex p1 ^ " " ^ hex p2
+(* ---- snippet ---- *)
+let agree_z (spec : Model.z) (stream : Model.z) : string =
+  if spec = stream then string_of_z spec
+  else "MODEL-INCONSISTENT spec=" ^ string_of_z spec ^ " stream=" ^ string_of_z stream
+let agree_b = agree
+let le64 (bytes : Model.n list) : Model.z =
+  z_of_zt (List.fold_right (fun b acc -> Z.add (zt_of_n b) (Z.shift_left acc 8)) bytes Z.zero)
+let rec groups8 l = match l with [] -> [] | _ -> take 8 l :: groups8 (drop 8 l)
+let z8 = Model.zeros (nat_of_int 8)
+
+let sip_sha3_model (ws : string list) : string option = match ws with
+  | ["siphash"; k0; k1; m; ch] ->
+    let k0 = z_of_string k0 and k1 = z_of_string k1 and msg = unhex m in
+    Some (agree_z (Model.siphash24_spec k0 k1 msg) (Model.csiphasher_stream k0 k1 (split_chunks msg (sizes ch))))
+  | ["siphash_w64"; k0; k1; m] ->
+    let k0 = z_of_string k0 and k1 = z_of_string k1 and msg = unhex m in
+    let ops = List.map (fun g -> Model.SipU64 (le64 g)) (groups8 msg) in
+    (match Model.csiphasher_run k0 k1 ops with
+     | Some r -> Some (agree_z (Model.siphash24_spec k0 k1 msg) r)
+     | None -> Some "ASSERT")
+  | ["siphash_u256"; k0; k1; v] ->
+    let k0 = z_of_string k0 and k1 = z_of_string k1 and v = unhex v in
+    Some (agree_z (Model.siphash24_spec k0 k1 v) (Model.presalted_siphash_u256 k0 k1 v))
+  | ["siphash_u256x"; k0; k1; v; x] ->
+    let k0 = z_of_string k0 and k1 = z_of_string k1 and v = unhex v and x = z_of_string x in
+    let xb = List.init 4 (fun i -> n_of_zt (Z.logand (Z.shift_right (zt_of_z x) (8 * i)) (Z.of_int 255))) in
+    Some (agree_z (Model.siphash24_spec k0 k1 (v @ xb)) (Model.presalted_siphash_u256_extra k0 k1 v x))
+  | ["siphash13uj"; k0; k1; bl] ->
+    let k0 = z_of_string k0 and k1 = z_of_string k1 in
+    let blocks = if bl = "-" then [] else
+      List.map (fun b -> let bytes = unhex b in
+                 if List.length bytes = 8 then Model.UJNormal (le64 bytes) else Model.UJJumbo bytes)
+               (String.split_on_char ',' bl) in
+    Some (agree_z (Model.siphash13uj_spec k0 k1 blocks) (Model.uj_stream k0 k1 blocks))
+  | ["sha3"; m; ch] ->
+    let msg = unhex m in
+    Some (agree_b (Model.sha3_256_spec msg) (Model.sha3_stream z8 (split_chunks msg (sizes ch))))
+  | ["keccakf"; st] ->
+    let lanes = List.map le64 (groups8 (unhex st)) in
+    let out l = List.concat_map (fun v -> List.init 8 (fun i -> n_of_zt (Z.logand (Z.shift_right (zt_of_z v) (8 * i)) (Z.of_int 255)))) l in
+    Some (agree_b (out (Model.keccak_f lanes)) (out (Model.keccakf_cpp lanes)))
+  | _ -> None
+
 let model _ l = match words l with
   | ["sha256"; m; ch] -> md "sha256" Model.sha256_spec Model.csha256_stream m ch
   | ["sha1"; m; ch] -> md "sha1" Model.sha1_spec Model.csha1_stream m ch
@@ -55,7 +120,69 @@ let model _ l = match words l with
   | ["hkdf"; ikm; salt; info] ->
     let ikm = unhex ikm and salt = unhex salt and info = unhex info in
     agree (Model.hkdf_sha256_spec salt ikm info (nat_of_int 32)) (Model.chkdf_sha256_l32 z64 ikm salt info)
-  | _ -> "BADCASE"
+  | ["chacha20"; k; nf; ns; ctr; d; ops] ->
+    let key = unhex k and data = unhex d in
+    let c = Model.chacha20_seek (Model.chacha20_new z64 key) (z_of_string nf) (z_of_string ns) (z_of_string ctr) in
+    let (outs, _) = Model.cc_run_ops c (parse_ops data ops) in
+    let res = List.concat outs in
+    (* when only Crypt calls are made and the 32-bit counter cannot wrap, RFC 8439 prescribes the result *)
+    let blocks = (List.length data + 63) / 64 in
+    if only_crypt ops && Z.leq (Z.add (Z.of_string ctr) (Z.of_int blocks)) two32 then
+      agree (Model.chacha20_encrypt key (z_of_string ctr) (Model.bip324_nonce (z_of_string nf) (z_of_string ns)) data) res
+    else hex res
+  | ["fschacha"; k; interval; chunks] ->
+    let key = unhex k in
+    let cs = List.map unhex (String.split_on_char ',' chunks) in
+    let (outs, _) = Model.fschacha20_crypt_seq (Model.fschacha20_new z64 key (z_of_string interval)) cs in
+    String.concat "," (List.map hex outs)
+  | ["poly1305"; k; m; ch] ->
+    let key = unhex k and msg = unhex m in
+    agree (Model.poly1305_spec key msg) (Model.poly1305_stream z16 key (split_chunks msg (sizes ch)))
+  | ["aead_enc"; k; nf; ns; aad; pl; len1] ->
+    let key = unhex k and aad = unhex aad and pl = unhex pl and l1 = int_of_string len1 in
+    let spec = Model.aead_encrypt_spec key (Model.bip324_nonce (z_of_string nf) (z_of_string ns)) aad pl in
+    let (out, _) = Model.aead_encrypt z16 (Model.chacha20_new z64 key) (take l1 pl) (drop l1 pl) aad (z_of_string nf) (z_of_string ns) in
+    agree spec out
+  | ["aead_dec"; k; nf; ns; aad; ci; len1] ->
+    let key = unhex k and aad = unhex aad and ci = unhex ci and l1 = int_of_string len1 in
+    let spec = (match Model.aead_decrypt_spec key (Model.bip324_nonce (z_of_string nf) (z_of_string ns)) aad ci with
+        | None -> None | Some pt -> Some (take l1 pt, drop l1 pt)) in
+    let (res, _) = Model.aead_decrypt z16 (Model.chacha20_new z64 key) ci aad (z_of_string nf) (z_of_string ns) (nat_of_int l1) in
+    if dec_result spec = dec_result res then dec_result spec
+    else "MODEL-INCONSISTENT spec=" ^ dec_result spec ^ " model=" ^ dec_result res
+  | ["aead_tamper"; k; nf; ns; aad; pl; len1; what; bit] ->
+    (* encrypt, flip one bit of the ciphertext body / tag / aad (or nothing), decrypt on a fresh object *)
+    let key = unhex k and aad = unhex aad and pl = unhex pl and l1 = int_of_string len1 and bit = int_of_string bit in
+    let nonce = Model.bip324_nonce (z_of_string nf) (z_of_string ns) in
+    let out = Model.aead_encrypt_spec key nonce aad pl in
+    let n = List.length pl in
+    let (out', aad') = (match what with
+        | "ct" -> (flip_bit out bit, aad)
+        | "tag" -> (flip_bit out (8 * n + bit), aad)
+        | "aad" -> (out, flip_bit aad bit)
+        | _ -> (out, aad)) in
+    let spec = (match Model.aead_decrypt_spec key nonce aad' out' with
+        | None -> None | Some pt -> Some (take l1 pt, drop l1 pt)) in
+    let (res, _) = Model.aead_decrypt z16 (Model.chacha20_new z64 key) out' aad' (z_of_string nf) (z_of_string ns) (nat_of_int l1) in
+    if dec_result spec = dec_result res then dec_result spec
+    else "MODEL-INCONSISTENT spec=" ^ dec_result spec ^ " model=" ^ dec_result res
+  | ["fsaead"; k; interval; pkts] ->
+    (* packets "plainhex:aadhex,..." encrypted in sequence by one FSChaCha20Poly1305; then decrypted by a second one *)
+    let key = unhex k and iv = int_of_string interval in
+    let ps = List.map (fun t -> match String.split_on_char ':' t with
+        | [p; a] -> (unhex p, unhex a) | _ -> failwith "packet") (String.split_on_char ',' pkts) in
+    let (outs, _) = Model.fsaead_encrypt_seq z16 (Model.fsaead_new z64 key (z_of_int iv)) ps in
+    let specs = List.mapi (fun i (p, a) -> Model.bip324_packet_spec key (nat_of_int iv) (nat_of_int i) a p) ps in
+    if List.map hex outs <> List.map hex specs then "MODEL-INCONSISTENT fsaead"
+    else begin
+      (* decrypt side *)
+      let f = ref (Model.fsaead_new z64 key (z_of_int iv)) in
+      let ok = List.for_all2 (fun o (p, a) ->
+          let (res, f') = Model.fsaead_decrypt z16 !f o a (nat_of_int (List.length p)) in
+          f := f'; (match res with Some (p1, p2) -> p1 = p && p2 = [] | None -> false)) outs ps in
+      String.concat "," (List.map hex outs) ^ (if ok then " dec=ok" else " dec=FAIL")
+    end
+  | ws -> (match sip_sha3_model ws with Some r -> r | None -> "BADCASE")
 
 let holds _ _ _ = "na"
 let () = main_loop ~model ~holds
